@@ -384,6 +384,114 @@ def run_real(case):
         return {"build_error": repr(e)[:200]}
 
 
+# ---- extras of every kind a method may store (scalars, strings, nested mappings, sequences) -----------------------
+EXTRA_KINDS = ["int", "bool", "float", "npfloat", "npint", "str", "npstr", "dict", "odict", "list", "tuple", "arr",
+               "marr", "none"]
+
+
+def extra_value(kind, k):
+    import collections
+    base = {"int": 1 + k, "bool": bool(k % 2 == 0), "float": 0.5 + k, "npfloat": np.float64(0.5 + k),
+            "npint": np.int64(1 + k), "str": "abc" + str(k), "npstr": np.str_("abc" + str(k)),
+            "dict": {"u": 1.0 + k, "v": [1, 2]}, "odict": collections.OrderedDict([("u", 1.0 + k), ("v", [1, 2])]),
+            "list": [1.0, 2.0 + k], "tuple": (1.0, 2.0 + k), "arr": np.array([1.0, 2.0 + k]),
+            "marr": np.ma.masked_array([1.0, 2.0 + k]), "none": None}
+    return base[kind]
+
+
+# pairs of kinds that hold "the same" value in two types, one a subclass / numpy twin of the other
+TWINS = [("int", "bool"), ("float", "npfloat"), ("str", "npstr"), ("dict", "odict"), ("arr", "marr"), ("list", "tuple"),
+         ("int", "npint")]
+
+
+def twin_value(kind, other, k):
+    """The value of `kind` number k, written in the type `other`."""
+    import collections
+    v = extra_value(kind, k)
+    conv = {"bool": bool, "int": int, "float": float, "npfloat": np.float64, "npint": np.int64, "str": str,
+            "npstr": np.str_, "dict": dict, "odict": collections.OrderedDict, "list": list, "tuple": tuple,
+            "arr": np.asarray, "marr": np.ma.masked_array}
+    return conv[other](v)
+
+
+def gen_extras_pair(rng):
+    n = rng.randint(2, 4)
+    keys = rng.sample(["alpha", "beta", "gamma", "delta", "eps"], rng.randint(1, 4))
+    kinds = {k: rng.choice(EXTRA_KINDS) for k in keys}
+    rel = rng.choice(["same", "type", "type", "value", "key"])
+    which = rng.choice(keys)
+    if rel == "type":
+        pr = rng.choice(TWINS)
+        a, b = pr if rng.random() < 0.5 else pr[::-1]
+        kinds[which] = a
+        if a in ("int", "bool"):
+            pass
+        return {"n": n, "kinds": kinds, "rel": rel, "which": which, "other": b, "kernel": rng.random() < 0.3}
+    return {"n": n, "kinds": kinds, "rel": rel, "which": which, "kernel": rng.random() < 0.3}
+
+
+def run_extras_pair(case):
+    from skcriteria.agg import KernelResult, RankResult
+    try:
+        n = case["n"]
+        alts = [f"A{i}" for i in range(n)]
+
+        def res(extra):
+            if case["kernel"]:
+                return KernelResult("m", alts, [i % 2 == 0 for i in range(n)], extra)
+            return RankResult("m", alts, list(range(1, n + 1)), extra)
+        ea = {k: extra_value(kd, i) for i, (k, kd) in enumerate(sorted(case["kinds"].items()))}
+        eb = {k: extra_value(kd, i) for i, (k, kd) in enumerate(sorted(case["kinds"].items()))}
+        w = case["which"]
+        i = sorted(case["kinds"]).index(w)
+        if case["rel"] == "type":
+            kd = case["kinds"][w]
+            if kd in ("int", "bool") and case["other"] in ("int", "bool"):
+                ea[w], eb[w] = (1, True) if kd == "int" else (True, 1)
+            else:
+                eb[w] = twin_value(kd, case["other"], i)
+        elif case["rel"] == "value":
+            eb[w] = extra_value(case["kinds"][w], i + 7)
+        elif case["rel"] == "key":
+            del eb[w]
+        a, b = res(ea), res(eb)
+
+        def dd(x, y):
+            d = x.diff(y)
+            return [bool(d.different_types), sorted(d.members_diff)]
+        return {d: {"eq": outcome(lambda: bool(x == y)), "ne": outcome(lambda: bool(x != y)),
+                    "equals": outcome(lambda: bool(x.equals(y))), "aequals": outcome(lambda: bool(x.aequals(y))),
+                    "diff": outcome(lambda: dd(x, y))}
+                for d, (x, y) in (("ab", (a, b)), ("ba", (b, a)))}
+    except Exception as e:  # noqa: BLE001
+        return {"build_error": repr(e)[:200]}
+
+
+def check_extras_pair(ctx, c, o):
+    if "build_error" in o:
+        ctx.disagree(c, {"what": "results with these extras could not be built", "exc": o["build_error"]})
+        return
+    for d in ("ab", "ba"):
+        bad = [k for k, x in o[d].items() if isinstance(x, str) and x.startswith("RAISED")]
+        if bad:
+            ctx.oracle_fail(c, {"oracle": f"comparison raised: {o[d]}"})
+            return
+    if o["ab"] != o["ba"]:
+        ctx.oracle_fail(c, {"oracle": "comparison is not symmetric", "a_vs_b": o["ab"], "b_vs_a": o["ba"]})
+        return
+    r = o["ab"]
+    if r["eq"] == r["ne"] or r["eq"] != r["equals"] or (r["eq"] and not r["aequals"]):
+        ctx.oracle_fail(c, {"oracle": f"==, !=, equals, aequals are inconsistent: {r}"})
+        return
+    if c["rel"] == "same" and not (r["eq"] and r["diff"] == [False, []]):
+        ctx.oracle_fail(c, {"oracle": f"identically constructed results differ: {r}"})
+    if c["rel"] in ("value", "key") and c["kinds"][c["which"]] != "none" and \
+            (r["eq"] or r["aequals"] or r["diff"] != [False, ["extra_"]]):
+        ctx.oracle_fail(c, {"oracle": f"one extra entry changed but the comparison says {r}"})
+    if r["eq"] != (r["diff"] == [False, []]):
+        ctx.oracle_fail(c, {"oracle": f"== and diff disagree: {r}"})
+
+
 def gen_real(rng):
     c = gen.dm_case(rng, nmax=6, mmax=4, nmin=2, mmin=2, modes=("dyadic", "int"), positive=True, big=0.0)
     what = rng.choice(["dm", "res", "res", "res"])
@@ -415,6 +523,11 @@ def run(ctx):
             if not (r["eq"] and r["equals"] and r["sym"] and r["aequals"]) or r["ne"]:
                 ctx.oracle_fail(c, {"oracle": f"the object does not equal its {k}: {r}"})
                 break
+    ecases = [gen_extras_pair(ctx.rng) for _ in range(ctx.n(300, 3000))]
+    for c, o in zip(ecases, I.pmap(run_extras_pair, ecases)):
+        ctx.count("extras:" + c["rel"])
+        ctx.case_seen(c, c["rel"] != "same")
+        check_extras_pair(ctx, c, o)
     cases = [gen_pair(ctx.rng) for _ in range(ctx.n(1500, 30000))]
     outs = I.pmap(run_impl, cases)
     mab = ctx.model.batch([model_call(c) for c in cases])
@@ -436,6 +549,14 @@ def run(ctx):
 
 def replay(ctx, rep):
     case = rep["case"]
+    if "kinds" in case:
+        o = run_extras_pair(case)
+        print("implementation:", o)
+        n0 = len(ctx.oracle_failures) + len(ctx.disagreements)
+        check_extras_pair(ctx, case, o)
+        bad = len(ctx.oracle_failures) + len(ctx.disagreements) > n0
+        print("oracle        :", ctx.oracle_failures[-1][1]["oracle"] if ctx.oracle_failures else "property holds on this case")
+        return 1 if bad else 0
     o = run_impl(case)
     print("implementation:", o)
     print("model a,b     :", ctx.model.one(*model_call(case)))
